@@ -41,6 +41,14 @@ def gen(rng, tier):
             for fmt in ("json", "bincode"):
                 p = rbytes(rng, k)
                 cs.append(Case("serde_bytes %s %s %s" % (cont, fmt, hx(p)), cls="bytes/%s/%s" % (cont, fmt), expect="ok " + hx(p)))
+    # the signed-message framing is strict for every signature container (stack, Vec, heap): fewer than 64 bytes never parse
+    for k in list(range(0, 70)) + [100]:
+        seed = rbytes(rng, 32)
+        pk = refs.ed_public(seed)
+        msg = rbytes(rng, 36)
+        sm = refs.ed_sign(seed, msg) + msg
+        cs.append(Case("sign_open %s %s" % (hx(pk), hx(sm[:k])), cls="signed-from_bytes/%s" % ("full" if k == 100 else "short"), expect=("ok " + hx(msg)) if k == 100 else "err",
+                       meta={"why": "a %d-byte signed-message encoding" % k}))
     # every container serialises a byte string the same way (arrays of numbers in JSON, length-prefixed bytes in bincode)
     for cont in ("vec", "stack", "heaparr", "heap", "locked", "lockedro", "lockedarr"):
         for k in (0, 1, 16, 31, 32, 33, 64, 100):
